@@ -34,8 +34,11 @@ idn_resconf_initialize (void)
 int
 idn_resconf_create (struct verif_resconf **ctx)
 {
-    *ctx = malloc (sizeof **ctx);
-    if (!*ctx) return -9002;
+    /* contexts come from a static ring, not from malloc: a destroyed context stays recognisable (use after
+     * destroy, second destroy) and the adapter's own bookkeeping does not show up in the allocation accounting */
+    static struct verif_resconf ring[4096];
+    static unsigned next;
+    *ctx = &ring[next++ % 4096];
     (*ctx)->magic = MAGIC;
     adapter_ctx_created++;
     adapter_ctx_live++;
@@ -47,7 +50,6 @@ idn_resconf_destroy (struct verif_resconf *ctx)
 {
     if (ctx == NULL || ctx->magic != MAGIC) { adapter_ctx_bad++; return; }
     ctx->magic = 0;
-    free (ctx);
     adapter_ctx_destroyed++;
     adapter_ctx_live--;
 }
